@@ -95,7 +95,7 @@ func (c *Ctx) propFunctions(prop string) []string {
 		}
 		serves := hasProp(fc.Props, prop)
 		if !serves {
-			for _, cl := range append(append(append([]*Clause{}, fc.Requires...), fc.Ensures...), fc.Invs...) {
+			for _, cl := range append(append(append(append([]*Clause{}, fc.Requires...), fc.Ensures...), fc.Invs...), fc.Asserts...) {
 				if cl.Tags[prop] {
 					serves = true
 				}
@@ -229,7 +229,7 @@ func cmdBaseline(repo, verif string) int {
 			props[p] = true
 		}
 		fc := c.contracts.Funcs[k]
-		for _, cl := range append(append(append([]*Clause{}, fc.Requires...), fc.Ensures...), fc.Invs...) {
+		for _, cl := range append(append(append(append([]*Clause{}, fc.Requires...), fc.Ensures...), fc.Invs...), fc.Asserts...) {
 			for t := range cl.Tags {
 				if !strings.HasPrefix(t, "pkg:") {
 					props[t] = true
